@@ -86,6 +86,22 @@ func suiteAdd(R *runner, r *rng) {
 		o.Impl = itemsString(s.Items, u)
 		if wf {
 			o.Oracle = oracleAdd(before, d, s.Items)
+			if o.Oracle == "" {
+				// C09_preserves_order on the implementation: a start-ordered list stays start-ordered
+				sortedIn := true
+				for i := 1; i < len(before); i++ {
+					if before[i-1].s > before[i].s {
+						sortedIn = false
+					}
+				}
+				if sortedIn {
+					for i := 1; i < len(s.Items); i++ {
+						if s.Items[i-1].StartAt > s.Items[i].StartAt {
+							o.Oracle = fmt.Sprintf("start-ordered input, but after Add(%d) cue %d starts after cue %d", d, i-1, i)
+						}
+					}
+				}
+			}
 		}
 		for _, b := range before {
 			if b.e+d <= 0 || b.s+d < 0 {
